@@ -125,6 +125,9 @@ def fmt_op(op) -> str:
         return f"S:{op[1]}:{nats(op[2])}:{1 if op[3] else 0}"
     if k == "Z":
         return f"Z:{op[1]}:{hx(op[2])}"
+    if k == "N":
+        # a refused constructor call: for the model a rejected no-op (written as the type-error assignment `children = 5`)
+        return f"K:{op[1] if op[1] is not None else 0}:none"
     raise ValueError(op)
 
 
@@ -207,6 +210,9 @@ def apply_op(nodes, op) -> str:
             nodes[op[1]].sort(key=lambda nd: ranks[idx[id(nd)]] if idx[id(nd)] < len(ranks) else 0, reverse=bool(op[3]))
         elif k == "Z":
             nodes[op[1]].sep = op[2]
+        elif k == "N":
+            # Node("", parent=p, children=[...]): refused (a Node must have a name) - and must not have linked anything
+            type(nodes[0])("", parent=None if op[1] is None else nodes[op[1]], children=[nodes[c] for c in op[2]])
         else:
             raise ValueError(op)
         return "ok"
@@ -359,7 +365,7 @@ def must_reject(sn, op, n):
     if k == "C":
         v, cs = op[1], op[2]
         return any(c >= n or c == v or c in _anc(sn, v) for c in cs) or len(set(cs)) != len(cs)
-    if k == "K":
+    if k in ("K", "N"):
         return True
     return False
 
@@ -372,6 +378,8 @@ def effect_errors(d, before, op, outcome, after, names=None):
     if d.get("asrt", 1) and must_reject(before, op, n) and outcome != "rej":
         msgs.append(f"{fmt_op(op)}: loop / repeated / non-node argument was accepted")
     if outcome == "rej":
+        if k == "N" and [(q, list(c)) for q, c in after] != [(q, list(c)) for q, c in before]:
+            msgs.append(f"refused constructor Node('', parent={op[1]}, children={op[2]}) changed the store: {show_snap(after)} (before: {show_snap(before)})")
         if k == "E":
             # a documented loop of assignments: some proper prefix was applied
             cands, cur = [before], before
@@ -452,6 +460,11 @@ def arg_universe(n, cls, names, tier_small=True):
                 for f in FAULTS3:
                     ops.append(["X", v, nm, f])
             ops.append(["Z", v, "|"])
+            ops.append(["N", v, []])
+            for c in V:
+                if c != v:
+                    ops.append(["N", None, [c]])
+                    ops.append(["N", v, [c]])
     return ops
 
 
@@ -588,6 +601,9 @@ def random_history(rng: random.Random, cls, n, names, sep, nops, fault_rate=0.25
             op = ["S", rng.choice(donors) if donors and rng.random() < 0.7 else rng.choice(V), ranks, rng.random() < 0.4]
         elif r < 0.94:
             op = ["K", rng.choice(V), fault()]
+        elif cls == "node" and r < 0.955:
+            pool = ok_children(sn, rng.choice(V))
+            op = ["N", rng.choice([None] + V), rng.sample(pool, min(len(pool), rng.randint(0, 2)))]
         elif cls == "node" and r < 0.98:
             nm = rng.choice(names + ["zz"])
             if rng.random() < 0.35:
